@@ -1,4 +1,7 @@
 """C12 — listeners and the model are first-class callback providers, attached once."""
+import random
+import warnings
+
 from vmon import family as F
 from vmon import gen
 from vmon.run import Scenario
@@ -215,7 +218,8 @@ def extra_check(case, run, log, ck, fault):
 
 
 def plan(tier, seed):
-    return F.std_plan(tier, seed, 4400, 50000) + [{"twins": True, "seed": seed}]
+    return F.std_plan(tier, seed, 4400, 50000) + [{"twins": True, "seed": seed},
+                                                  {"event_named": True, "seed": seed, "count": 150 if tier == "quick" else 3000}]
 
 
 TWIN_SRC = '''
@@ -287,9 +291,99 @@ def run_twins(desc):
             "violations": violations[:2]}
 
 
+EVNAME_SRC = '''
+class Pipe(StateMachine):
+    a = State(initial=True)
+    b = State()
+    c = State(final=True)
+    start = a.to(b, {group}="finish")      # the callback name is also the machine's own event
+    finish = b.to(c)
+
+class Down(StateMachine):                  # another machine used as a listener: `finish` is ITS event
+    waiting = State(initial=True)
+    ready = State(final=True)
+    finish = waiting.to(ready)
+
+class Plain:
+    def __init__(self, tag):
+        self.tag = tag
+    def finish(self, *args, **kwargs):
+        LOG.append(self.tag)
+
+class Mute:
+    def __init__(self, tag):
+        self.tag = tag
+
+class Model(Plain):
+    state = None
+'''
+
+
+def run_event_named(desc):
+    """A callback name that is an EVENT on one provider (the machine's own event, or the event of another
+    machine attached as listener) and a plain method on the others: every provider is still called."""
+    from statemachine import State, StateMachine
+
+    rng = random.Random(desc["seed"] * 17 + 3)
+    counters = {"event_named_cases": 0}
+    violations, sigs = [], set()
+    for _ in range(desc.get("count", 150)):
+        group = rng.choice(["before", "on", "after"])
+        log = []
+        ns = {"State": State, "StateMachine": StateMachine, "LOG": log, "__name__": "vmon_c12e"}
+        src = EVNAME_SRC.format(group=group)
+        exec(compile(src, "<c12-evname>", "exec"), ns)
+        model = ns["Model"]("model") if rng.random() < 0.7 else None
+        lst, expect, downs = [], [], []
+        for k in range(rng.randint(0, 4)):
+            r = rng.random()
+            if r < 0.5:
+                lst.append(ns["Plain"](f"l{k}"))
+                expect.append(f"l{k}")
+            elif r < 0.75:
+                d = ns["Down"]()
+                lst.append(d)
+                downs.append(d)
+            else:
+                lst.append(ns["Mute"](f"m{k}"))
+        cut = rng.randint(0, len(lst))
+        attach = rng.choice(["ctor", "late-one-call", "late-each"])
+        if attach == "ctor":
+            cut = len(lst)
+        args = (model,) if model is not None else ()
+        with warnings.catch_warnings():
+            warnings.simplefilter("ignore")
+            sm = ns["Pipe"](*args, listeners=lst[:cut])
+            if attach == "late-one-call" and lst[cut:]:
+                sm.add_listener(*lst[cut:])
+            else:
+                for o in lst[cut:]:
+                    sm.add_listener(o)
+            try:
+                sm.start()
+                err = None
+            except Exception as e:  # noqa: BLE001
+                err = f"{type(e).__name__}: {e}"[:200]
+        counters["event_named_cases"] += 1
+        want = sorted((["model"] if model is not None else []) + expect)
+        got = sorted(log)
+        state = sm.current_state.id
+        dstates = [d.current_state.id for d in downs]
+        sigs.add(F.h((group, model is not None, tuple(type(o).__name__ for o in lst), cut, attach)))
+        if err or got != want or state != "c" or any(x != "ready" for x in dstates):
+            violations.append({"mechanism": "event-named-callback:providers-skipped", "rule": "C12.all-providers-called",
+                               "detail": f"group={group} attach={attach} listeners={[type(o).__name__ for o in lst]} cut={cut} model={model is not None}: "
+                                         f"called {got} expected {want}; machine in {state} (expected c); downstream machines {dstates}; error={err}",
+                               "witness": {"source": src, "group": group, "attach": attach}})
+    return {"evaluations": counters["event_named_cases"], "signatures": sorted(sigs), "samples": [], "counters": counters,
+            "violations": violations[:2]}
+
+
 def run_shard(desc):
     if desc.get("twins"):
         return run_twins(desc)
+    if desc.get("event_named"):
+        return run_event_named(desc)
     return F.explore(desc, make_case, owns, signature, classify=classify, extra_check=extra_check)
 
 
